@@ -26,7 +26,9 @@ RULE = (
     "(non-empty subsets of {1,2,3}) every history of the menu {fit->predict, fit->update(T/F)->"
     "predict, fit->update->update->predict (T/F), fit->predict->update->predict} is run on the "
     "real composite and on the hand-composed parts; forecasts, cutoffs and the complete call "
-    "log of the inner recording estimators are compared. states = (program, history prefix) "
+    "log of the inner recording estimators are compared. Independence: for 18 programs x 3 "
+    "histories x 2 horizons a second composite constructed from the same member objects is "
+    "fitted/updated on other data in between; the first one's forecasts must not move. states = (program, history prefix) "
     "pairs reached; transitions = calls executed on the real composite."
 )
 ASSUMPTIONS = [
@@ -70,6 +72,15 @@ def gen_cases(tier, seed):
         for h in hists:
             for fh in qfh:
                 yield dict(kind="nest", which=k, hist=h, fh=fh, fam=seed % 2)
+    # independence: two composites constructed from the SAME member objects
+    progs = [dict(kind="ens", members=[0, 1, 2], agg=a) for a in ("mean", "median", "online")] + \
+        [dict(kind="ttf", seq=[i]) for i in (0, 1, 3, 9)] + [dict(kind="ttf", seq=[0, 9])] + \
+        [dict(kind="mux", sel=i) for i in range(3)] + [dict(kind="stack", members=[0, 1])] + \
+        [dict(kind="nest", which=k) for k in range(7)]
+    for pr in progs:
+        for h in ("fp", "fUp", "fup"):
+            for fh in ([1, 2], [3]):
+                yield dict(kind="shared", prog=pr, hist=h, fh=fh, fam=seed % 2)
 
 
 def _series(n, fam, start=3):
@@ -254,9 +265,67 @@ def _play(obj, spec, hist, y_full, n0, fh, manual):
     return out
 
 
+def _run_shared(case):
+    """composite A and composite B are constructed from the same member objects; B is fitted on
+    other data between A's fit and A's forecasts. A must still be the composition of ITS OWN
+    independently fitted parts, i.e. forecast as if B did not exist."""
+    from .. import doubles
+
+    res = Result()
+    pc = dict(case["prog"])
+    spec = _program(pc)
+    fh, hist, n0 = case["fh"], case["hist"], 14
+    y = _series(n0 + 6, case["fam"])
+    y2 = _series(n0 + 9, 1 - case["fam"], start=40) * 3.0 + 100.0
+    needs = fmenu.needs_fh_at_fit(spec)
+
+    def play(with_twin):
+        doubles.reset_log()
+        doubles.reset_tokens()
+        A = _build_real(_retag(spec, "#r"))
+        B = type(A)(**A.get_params(deep=False)) if with_twin else None
+        A.fit(y.iloc[:n0].copy(), fh=fh)
+        if B is not None:
+            B.fit(y2.iloc[:n0 + 3].copy(), fh=fh)
+        pos, out = n0, []
+        for ch in hist[1:]:
+            if ch == "p":
+                p = A.predict(None) if needs else A.predict(fh)
+                out.append(("P", [int(i) for i in p.index], [float(v) for v in p.values]))
+            else:
+                A.update(y.iloc[pos:pos + 2].copy(), update_params=(ch == "U"))
+                if B is not None:
+                    B.update(y2.iloc[n0 + 3 + pos - n0:n0 + 5 + pos - n0].copy(),
+                             update_params=(ch == "U"))
+                pos += 2
+                out.append(("U", int(A.cutoff)))
+        return out
+
+    a = call(play, False)
+    b = call(play, True)
+    res.transitions += 2 * len(hist)
+    res.states += len(hist)
+    res.outcome("shared:%s:%s:%s" % (pc["kind"], a.kind, b.kind))
+    if not a.ok:
+        return res
+    res.nt((str(spec), hist, tuple(fh)))
+    tag = "shared:" + pc["kind"]
+    if not b.ok:
+        res.violate(tag + ":raises", "composite raises once a second composite built from the "
+                    "same member objects has been fitted", expected=a.value, observed=b.brief())
+    elif a.value != b.value:
+        res.violate(tag + ":not-independent", "a composite's forecasts change when a second "
+                    "composite constructed from the same member objects is fitted on other data "
+                    "(members are not fitted as independent copies)", expected=a.value,
+                    observed=dict(got=b.value, history=hist))
+    return res
+
+
 def run_case(case):
     from .. import doubles
 
+    if case["kind"] == "shared":
+        return _run_shared(case)
     res = Result()
     spec = _program(case)
     fh = case["fh"]
